@@ -95,7 +95,31 @@ def run(ctx, rep):
     for mname, (plist, ptype) in REQUESTS.items():
         f = prog.own_method("Transaction", mname)
         cfg = ctx.cfg(f)
-        vnode, pass_lab, refuse_lab = validation_node(cfg, f)
+        try:
+            vnode, pass_lab, refuse_lab = validation_node(cfg, f)
+        except AnalysisError:
+            # several validation tests (one per branch): the shape is not modelled, but its necessary condition is
+            # decidable - unless `force` is set, nothing changes the order before SOME validation test has run
+            ns_ = [n for n in cfg.live_nodes() if n.kind == "cond" and calls_in(n, "_validate_controls")]
+            if len(ns_) > 1:
+                from sa.kinds import resolve_local
+                blocked = set()
+                for x in cfg.live_nodes():
+                    if x.kind != "cond":
+                        continue
+                    t_ = utext(x.exprs[0])
+                    if t_ == "force":
+                        blocked.add((x.id, "T"))
+                    elif isinstance(x.exprs[0], ast.Name) and utext(resolve_local(f, x.exprs[0])) in ("not force", "force is False"):
+                        blocked.add((x.id, "F"))
+                for m_ in cfg.live_nodes():
+                    for c_ in calls_in(m_):
+                        if call_name(c_) in ("place", "cancel", "update", "replace") and recv_text(c_) == "order":
+                            if not cfg.all_paths_pass(cfg.entry, m_.id, [n.id for n in ns_], blocked) and m_.id in cfg.reachable(cfg.entry, blocked_edges=blocked):
+                                rep.violation("R1", key(f, c_, "the order is changed before the controls have run"), f, c_,
+                                              "a refusal after this call leaves the request's effect on the order",
+                                              cfg.fmt_path(cfg.path(cfg.entry, m_.id, [n.id for n in ns_], blocked) or []))
+            raise
         # controls run through a wrapper: the wrapper itself must leave everything as it found it (what it
         # changes before or while the controls run is still changed when they refuse)
         for wname, wf in validation_wrappers(f).items():
